@@ -75,6 +75,8 @@ func init() {
 		Ev: func(obj any, ev string, id peer.ID) {
 			if s := theSched.Load(); s != nil {
 				s.ev(obj, ev, id)
+			} else if h := rawHook.Load(); h != nil {
+				(*h)(obj, ev, id)
 			}
 		},
 		Spawn: func() any {
